@@ -77,11 +77,16 @@ func body(c *explore.Chooser) *explore.Case {
 
 // gitlabBody: the platform layer. The real GitLabReporter talks HTTP to a stateful fake of the discussions API;
 // threads gain replies by other users and system notes between runs.
+var tier string
+
 func gitlabBody(c *explore.Chooser) *explore.Case {
 	maxComments := []int{1, 50}[c.Free(2, "maxComments")]
 	showDups := c.Free(2, "showDuplicates") == 1
 	all := universe()
 	u := []reporter.Report{all[0], all[1], all[3]} // two problems sharing a comment, one in a second file
+	if tier == "thorough" {
+		u = append(u, all[2]) // another check on the same lines
+	}
 	stale := reporter.VerifGLDisc{Notes: []reporter.VerifGLNote{{Author: "pint", Body: "stale comment left by an earlier pint run\n", Path: u[0].Path.SymlinkTarget, Line: 6}}}
 	staleReplied := reporter.VerifGLDisc{Notes: append(append([]reporter.VerifGLNote{}, stale.Notes...), reporter.VerifGLNote{Author: "other", Body: "why?", Path: u[0].Path.SymlinkTarget, Line: 6})}
 	eq := reporter.VerifGLPendingFor(u[:1], showDups, "pint")
@@ -141,9 +146,10 @@ func githubBody(c *explore.Chooser) *explore.Case {
 }
 
 func main() {
+	reporter.VerifTick = explore.Heartbeat
 	explore.Main(&explore.Config{
 		Property: "C17", Level: "model_checking",
-		Rule: "for each parameter cell (maxComments in {1,2,50} x reporter can/cannot delete x showDuplicates) a breadth-first search to closure over comment-store states: events run(R) for all 32 subsets R of each of two 5-problem universes drawn from (two problems of one check on the same lines, a third with the same summary but other details, another check on those lines, a second file, the same problem on another rule), initial stores {empty, stale pint comment, comment already equal to a pending one, both}; every transition calls the real reporter.Submit on a store whose equality / budget / deletion rules are the real GitLab and GitHub methods; budget, no-duplicate, coverage, stale-removal, idempotence and convergence invariants on every transition; platform layer: the same search through the real GitLabReporter (List/Create/Delete/Summary over HTTP) against a stateful fake of the merge-request discussions API, 3-problem universe, maxComments in {1,50} x showDuplicates, initial stores {empty, stale pint thread, thread equal to a pending comment, another user's comment with the same text, stale thread with a reply + a general comment}, environment events reply(thread) and system-note(thread) on pint's threads, plus foreign-discussion-untouched and API-use invariants; and through the real GithubReporter (Destinations/List/Create/IsEqual with its line fixing/Summary) against a stateful fake of the review-comments API: 5-problem universe incl. a problem on an unmodified line, patch of the first file in {all lines added, only lines 4-5 modified}, maxComments in {1,50} x showDuplicates, initial stores {empty, somebody else's comment, a comment equal to a pending one}",
+		Rule: "for each parameter cell (maxComments in {1,2,50} x reporter can/cannot delete x showDuplicates) a breadth-first search to closure over comment-store states: events run(R) for all 32 subsets R of each of two 5-problem universes drawn from (two problems of one check on the same lines, a third with the same summary but other details, another check on those lines, a second file, the same problem on another rule), initial stores {empty, stale pint comment, comment already equal to a pending one, both}; every transition calls the real reporter.Submit on a store whose equality / budget / deletion rules are the real GitLab and GitHub methods; budget, no-duplicate, coverage, stale-removal, idempotence and convergence invariants on every transition; platform layer: the same search through the real GitLabReporter (List/Create/Delete/Summary over HTTP) against a stateful fake of the merge-request discussions API, 3-problem universe (4 at thorough), maxComments in {1,50} x showDuplicates, initial stores {empty, stale pint thread, thread equal to a pending comment, another user's comment with the same text, stale thread with a reply + a general comment}, environment events reply(thread) and system-note(thread) on pint's threads, plus foreign-discussion-untouched and API-use invariants; and through the real GithubReporter (Destinations/List/Create/IsEqual with its line fixing/Summary) against a stateful fake of the review-comments API: 5-problem universe incl. a problem on an unmodified line, patch of the first file in {all lines added, only lines 4-5 modified}, maxComments in {1,50} x showDuplicates, initial stores {empty, somebody else's comment, a comment equal to a pending one}",
 		Assumptions: []string{
 			"cells space: the store is an in-memory Commenter whose List only returns pint's own comments; which comments are pint's own is decided by the platform code, covered by the gitlab space (GitHub's List does not filter by author and cannot delete, so it has no such decision)",
 			"gitlab space: discussions that are not pint's are kept as a set (List skips them, so their multiplicity cannot influence a run); at most one reply and one system note per thread",
@@ -151,9 +157,14 @@ func main() {
 		},
 		Spaces: []*explore.Space{
 			{Name: "cells", Body: body, Bound: func(string) int { return -1 }},
-			{Name: "gitlab", Body: gitlabBody, Bound: func(string) int { return -1 }},
+			{Name: "gitlab", Body: gitlabBody, Setup: func(t string) { tier = t }, Bound: func(string) int { return -1 }},
 			{Name: "github", Body: githubBody, Bound: func(string) int { return -1 }},
 		},
-		BudgetS: func(string) int { return 600 },
+		BudgetS: func(t string) int {
+			if t == "thorough" {
+				return 2400
+			}
+			return 600
+		},
 	})
 }
